@@ -99,4 +99,52 @@ early on the second success. -/
 example : shouldComplete ⟨some 2, some 1, none⟩ 2 1 5 = true ∧
     reason (some ⟨some 2, some 1, none⟩) 1 2 3 5 = .minSuccessfulReached := by decide
 
+/-! ## The classifier on its own (all configurations, arbitrary counts) -/
+
+/-- **Classifier, every configuration, every count** (`_get_completion_reason`, models.py:117-194):
+with no failed item the reported reason is never FAILURE_TOLERANCE_EXCEEDED. -/
+theorem C09_reason_no_failure (cfg : Option Cfg) (s c t : Nat) :
+    reason cfg 0 s c t ≠ .failureToleranceExceeded := by
+  rcases cfg with _ | ⟨ms, tc, tp⟩
+  · simp [reason]
+  · rcases ms with _ | m <;> rcases tc with _ | k <;> rcases tp with _ | p <;>
+      simp [reason, Cfg.hasCriteria, countExceeded, pctExceeded] <;> grind
+
+/-- MIN_SUCCESSFUL_REACHED is reported only when a minimum is configured, that many items succeeded and
+not every item completed. -/
+theorem C09_reason_min_sound (cfg : Option Cfg) (f s c t : Nat)
+    (h : reason cfg f s c t = .minSuccessfulReached) :
+    ∃ c' m, cfg = some c' ∧ c'.minSucc = some m ∧ m ≤ s ∧ c ≠ t := by
+  rcases cfg with _ | ⟨ms, tc, tp⟩
+  · simp [reason] at h; grind
+  · rcases ms with _ | m <;> rcases tc with _ | k <;> rcases tp with _ | p <;>
+      simp [reason, Cfg.hasCriteria] at h ⊢ <;> grind
+
+/-- Once the classifier reports FAILURE_TOLERANCE_EXCEEDED, one more failure (whatever else changed among
+the other counts) is still reported so: the reason of a failed batch does not flip on a later replay that
+sees one more failed straggler. -/
+theorem C09_reason_failure_stable (cfg : Option Cfg) (f s c t : Nat)
+    (h : reason cfg f s c t = .failureToleranceExceeded) (s' c' : Nat) :
+    reason cfg (f + 1) s' c' t = .failureToleranceExceeded := by
+  rcases cfg with _ | ⟨ms, tc, tp⟩
+  · simp [reason]
+  · have hc := @countExceeded_succ f
+    have hp := @pctExceeded_succ f t
+    rcases ms with _ | m <;> rcases tc with _ | k <;> rcases tp with _ | p <;>
+      simp [reason, Cfg.hasCriteria] at h ⊢ <;> grind
+
+/-- The classifier's failure condition stated outright (it does **not** contain the counters' fail-fast
+rule when a minimum alone is configured - that gap is finding F7, `C09_reason_consistent_witness`). -/
+theorem C09_reason_failure_iff (cfg : Cfg) (f s c t : Nat) :
+    reason (some cfg) f s c t = .failureToleranceExceeded ↔
+      ((cfg.hasCriteria = false ∧ 0 < f) ∨
+       (cfg.hasCriteria = true ∧
+        ((∃ k, cfg.tolCount = some k ∧ k < f) ∨ (∃ p, cfg.tolPct = some p ∧ pctExceeded f t p = true)))) := by
+  rcases cfg with ⟨ms, tc, tp⟩
+  rcases ms with _ | m <;> rcases tc with _ | k <;> rcases tp with _ | p <;>
+    simp [reason, Cfg.hasCriteria, countExceeded] <;> grind
+example : reason (some ⟨none, some 1, none⟩) 2 0 2 5 = .failureToleranceExceeded ∧
+    reason (some ⟨none, some 1, none⟩) 3 1 4 5 = .failureToleranceExceeded ∧
+    reason (some ⟨some 1, none, none⟩) 0 1 1 3 = .minSuccessfulReached := by decide
+
 end C09
